@@ -3,6 +3,8 @@
 (* line carries the module graph of the recording BESS stand-in after the event.                                *)
 (*  {"op":"reset","managed":[..]}                                                                                *)
 (*  {"op":"newroute"|"delroute","iface":i,"prefix":p,"len":n,"nh":h,"g":graph}  {"op":"neigh","nh":h,"mac":m,"g":graph} *)
+(*  {"op":"pair","evs":[line, line],"held":b,"g":graph}  two events delivered at the same time (first one held inside   *)
+(*     its first BESS command while the second is delivered), graph after both                                    *)
 (*  {"op":"raised",...}  a handler raised an exception: consumed by no action                                     *)
 EXTENDS RouteControl, TraceLib
 VARIABLES l, managed, kroutes, macs, g
@@ -11,6 +13,13 @@ AsSet(s) == {s[i] : i \in 1..Len(s)}
 Graph(x) == [routes |-> AsSet(x.routes), mods |-> AsSet(x.mods), links |-> AsSet(x.links)]
 EmptyGraph == [routes |-> {}, mods |-> {}, links |-> {}]
 NoMacs == [x \in {} |-> ""]
+
+\* effect of one kernel event on the kernel's routes / neighbours (what the module graph must mirror)
+RouteOf(e) == [iface |-> e.iface, prefix |-> e.prefix, len |-> e.len, nh |-> e.nh]
+ApplyK(kr, mg, e) ==
+  IF e.op = "newroute" THEN (IF e.iface \in mg THEN kr \cup {RouteOf(e)} ELSE kr)
+  ELSE IF e.op = "delroute" THEN kr \ {RouteOf(e)} ELSE kr
+ApplyM(m, e) == IF e.op = "neigh" THEN [x \in (DOMAIN m) \cup {e.nh} |-> IF x = e.nh THEN e.mac ELSE m[x]] ELSE m
 
 Init == l = 1 /\ managed = {} /\ kroutes = {} /\ macs = NoMacs /\ g = EmptyGraph /\ InitHw
 Step(e) ==
@@ -24,7 +33,13 @@ Step(e) ==
     [] e.op = "neigh" ->
          /\ macs' = [x \in (DOMAIN macs) \cup {e.nh} |-> IF x = e.nh THEN e.mac ELSE macs[x]]
          /\ g' = Graph(e.g) /\ UNCHANGED <<managed, kroutes>>
-Next == /\ l <= Len(Trace) /\ Trace[l].op \in {"reset", "newroute", "delroute", "neigh"}
+    \* two events the kernel delivered at the same time (they commute in the kernel): whatever order the handlers took
+    \* effect in, the graph after both mirrors the kernel state after both
+    [] e.op = "pair" ->
+         /\ kroutes' = ApplyK(ApplyK(kroutes, managed, e.evs[1]), managed, e.evs[2])
+         /\ macs' = ApplyM(ApplyM(macs, e.evs[1]), e.evs[2])
+         /\ g' = Graph(e.g) /\ UNCHANGED managed
+Next == /\ l <= Len(Trace) /\ Trace[l].op \in {"reset", "newroute", "delroute", "neigh", "pair"}
         /\ Step(Trace[l])
         /\ l' = l + 1 /\ BumpHw(l + 1)
 Spec == Init /\ [][Next]_vars
